@@ -1,12 +1,16 @@
 package vh
 
 import (
+	"vh/fastg"
+
 	"bufio"
 	"encoding/json"
 	"flag"
 	"fmt"
+	"github.com/f1bonacc1/process-compose/src/vrt"
 	"os"
 	"runtime"
+	"sort"
 	"strconv"
 	"strings"
 	"testing"
@@ -38,6 +42,9 @@ var registry = map[string]*propDef{}
 func TestMain(m *testing.M) {
 	flag.Parse()
 	runtime.GOMAXPROCS(1)
+	if fastg.Goid != nil && os.Getenv("VH_SLOWGOID") == "" {
+		vrt.GoidFunc = fastg.Goid
+	}
 	zerolog.SetGlobalLevel(zerolog.Disabled)
 	devNull, _ = os.OpenFile(os.DevNull, os.O_WRONLY, 0)
 	os.Exit(m.Run())
@@ -74,6 +81,17 @@ func TestWorker(t *testing.T) {
 		b, _ := json.Marshal(v)
 		fmt.Fprintf(out, "%s %s\n", kind, b)
 		out.Flush()
+	}
+	if fn := os.Getenv("VH_STATEDUMP"); fn != "" {
+		stateDump = map[string]bool{}
+		defer func() {
+			var l []string
+			for k := range stateDump {
+				l = append(l, k)
+			}
+			sort.Strings(l)
+			os.WriteFile(fn, []byte(strings.Join(l, "\n")), 0o644)
+		}()
 	}
 	deadline := time.Now().Add(time.Duration(*fBudget) * time.Second)
 	if *fReplay != "" {
@@ -135,6 +153,7 @@ func replayFile(t *testing.T, def *propDef, file string, emit func(string, any))
 			continue
 		}
 		w := RunExecution(t, sc, doc.Choices)
+		defer sc.Cleanup()
 		var vs []Violation
 		vs = append(vs, genericCheck(w)...)
 		if sc.Check != nil {
